@@ -42,7 +42,7 @@ def main():
     ap.add_argument("--only"); ap.add_argument("--tier", default="quick"); ap.add_argument("--verify", action="store_true")
     ap.add_argument("--tests", action="store_true"); ap.add_argument("--seed", default="1"); ap.add_argument("--scale", default="1")
     a = ap.parse_args()
-    ids = sorted(x for x in os.listdir(SEEDED) if os.path.isdir(os.path.join(SEEDED, x)))
+    ids = sorted(x for x in os.listdir(SEEDED) if os.path.isdir(os.path.join(SEEDED, x)) and os.path.exists(os.path.join(SEEDED, x, "meta.json")))
     if a.only:
         ids = [i for i in ids if i in a.only.split(",")]
     rows = []
@@ -96,6 +96,19 @@ def main():
                 shutil.rmtree(d, ignore_errors=True)
         rows.append(row)
         print(json.dumps(row), flush=True)
+        if a.tier == "quick":
+            rp = os.path.join(SEEDED, "results.json")
+            try:
+                allr = json.load(open(rp))
+            except Exception:  # noqa
+                allr = {}
+            keep = {k: v for k, v in row.items() if k not in ("stderr",)}
+            if "demo_on_unchanged" not in keep and sid in allr:
+                for k in ("demo_on_unchanged", "stable_tests_broken"):
+                    if k in allr[sid]:
+                        keep.setdefault(k, allr[sid][k])
+            allr[sid] = keep
+            json.dump(allr, open(rp, "w"), indent=1, sort_keys=True)
     missed = [r for r in rows if r.get("check") != "DETECTED"]
     print("%d seeded changes, %d detected" % (len(rows), len(rows) - len(missed)))
     return 1 if missed else 0
